@@ -46,6 +46,7 @@ import GherkinVerif.Lemmas.ParseLocs
 import GherkinVerif.Lemmas.ParseDocString
 import GherkinVerif.Lemmas.ParseDocNode
 import GherkinVerif.Lemmas.ParseLang
+import GherkinVerif.KDecide
 namespace GV
 open Spec
 
@@ -54,7 +55,7 @@ open Spec
 /-- every doc-string content state is found by `row?` and its row is a content row (= `C13_content_rows`) -/
 theorem C03D_fact_content_rows :
     ((Spec.contentStates Gen.parserTable).all fun s => (Gen.parserTable.row? s).any Spec.isContentRow) = true := by
-  decide +kernel
+  kdecide
 
 /-! ### (1) every built token is the matcher's output on its own physical line -/
 
@@ -176,9 +177,9 @@ theorem C13_in_document_lines_generic (D : List Dialect) (μ μf : MState) (line
 
 /-- after a closing separator every test starts with an `end_rule` or is a build-only `Comment` /
     `Empty` loop -/
-theorem C03D_fact_doc_body : Spec.docBodyFacts Gen.parserTable = true := by decide +kernel
+theorem C03D_fact_doc_body : Spec.docBodyFacts Gen.parserTable = true := by kdecide
 /-- `start_rule(DocString)` is always directly followed by the `build` that ends the production list -/
-theorem C03D_fact_doc_start : Spec.docStartFacts Gen.parserTable = true := by decide +kernel
+theorem C03D_fact_doc_start : Spec.docStartFacts Gen.parserTable = true := by kdecide
 
 theorem C03D_doc_facts : Lemmas.DocFacts Gen.dialects Gen.parserTable :=
   ⟨C03P_fact_dialects, C03P_fact_content, C03D_fact_content_rows, C03P_fact_doc_opens, C03D_fact_doc_body,
@@ -287,7 +288,7 @@ example : (MState.init Gen.dialects (lit "en")).map (fun μ =>
       | .ok d => (d.feature.map (·.language), (srcLocs d).map fun l => (l.line, l.col.getD 0),
           d.comments.map fun c => (c.loc.line, c.loc.col.getD 0))
       | _ => (none, [], [])) =
-    some (some (lit "fr"), [(3, 1), (4, 3), (5, 5), (6, 7), (11, 5)], [(1, 1), (10, 1)]) := by decide +kernel
+    some (some (lit "fr"), [(3, 1), (4, 3), (5, 5), (6, 7), (11, 5)], [(1, 1), (10, 1)]) := by kdecide
 
 /-- the counterexample to the planned shape `[open] ++ content ++ [close]`: the blank line and the
     comment after the closing separator are children of the `DocString` node -/
@@ -308,7 +309,7 @@ example :
   rfl
 
 /-- `docLineText` on the demo's content line: opening indentation 6, the line's own 2 -/
-example : docLineText bt3 6 (lit "  Given y\n") = lit "Given y" := by decide +kernel
+example : docLineText bt3 6 (lit "  Given y\n") = lit "Given y" := by kdecide
 
 end examples
 
